@@ -509,7 +509,8 @@ impl<'r> G<'r> {
 /// a literal whose type has no conversion to `t` (never one of the documented convertible pairs)
 pub fn incompatible_literal(t: &Ty) -> Option<&'static str> {
     Some(match t {
-        Ty::Int | Ty::Bit | Ty::Bits(_) => "\"not_a_number\"",
+        // (the offending literal holds wide characters: the diagnostic's range covers non-ASCII text on one line)
+        Ty::Int | Ty::Bit | Ty::Bits(_) => "\"keine_Zahl_\u{fc}\u{20ac}\u{1d11e}\"",
         Ty::Str | Ty::Code => "[1, 2]",
         Ty::Dag => "\"not_a_dag\"",
         Ty::List(_) => "\"not_a_list\"",
